@@ -19,7 +19,7 @@ void JSON_append_terminator(JS* self) __CPROVER_assigns(g_clock, g_t_terminator,
 void BASE_write_log_json(JS* self, bool msg_empty) __CPROVER_assigns(g_clock, g_t_base_write, g_base_writes, g_base_msg_empty) __CPROVER_ensures(TICK_ENS(g_t_base_write, g_base_writes) && (g_base_msg_empty ? msg_empty : !msg_empty));
 '''
 write_log = dict(
-    name='JS.write_log', primary='C19', props={'C19'}, kind='S',
+    name='JS.write_log', primary='C19', props={'C19', 'C10'}, kind='S',
     desc='JsonSink::write_log: newlines of the message template are replaced by spaces in a private copy, the object is generated once into a cleared buffer, terminated once by "}\\n" and written once',
     structs=[], prelude=WL_PRELUDE, enforce='JS_write_log', replace=['FORMAT_assign_copy', 'FORMAT_find_nl', 'FORMAT_replace_with_space', 'JSON_clear', 'GENERATE_JSON', 'JSON_append_terminator', 'BASE_write_log_json'], loopcontracts=True,
     funcs=[dict(src=dict(header=H, cls='JsonSink', name='write_log'), cfun='JS_write_log', sig='void JS_write_log(JS* self, MM const* log_metadata)', cls_c='JS', member_fields=[],
@@ -40,7 +40,7 @@ __CPROVER_loop_invariant((g_first_nl == NPOS || (pos <= g_first_nl && g_first_nl
                 contract=r'''
 __CPROVER_requires(__CPROVER_is_fresh(self, sizeof(*self)) && __CPROVER_is_fresh(log_metadata, sizeof(MM)) && g_clock == 0 && g_clears == 0 && g_generates == 0 && g_terminators == 0 && g_base_writes == 0 && g_copies == 0)
 __CPROVER_assigns(g_first_nl, g_len, g_copies, g_clock, g_t_clear, g_t_generate, g_t_terminator, g_t_base_write, g_clears, g_generates, g_terminators, g_base_writes, g_generated_with_copy, g_base_msg_empty)
-__CPROVER_ensures(g_clears == 1 && g_generates == 1 && g_terminators == 1 && g_base_writes == 1 && g_t_clear < g_t_generate && g_t_generate < g_t_terminator && g_t_terminator < g_t_base_write) /*@ C19 "exactly one JSON object per statement: generated once into a cleared buffer, closed once by }\\n, written once" */
+__CPROVER_ensures(g_clears == 1 && g_generates == 1 && g_terminators == 1 && g_base_writes == 1 && g_t_clear < g_t_generate && g_t_generate < g_t_terminator && g_t_terminator < g_t_base_write) /*@ C19,C10 "exactly one JSON object per statement: generated once into a buffer cleared BEFORE it (so that a write that threw for an earlier statement leaves nothing behind), closed once by }\\n, written once" */
 __CPROVER_ensures(log_metadata->g_format_has_newline ==> (g_generated_with_copy && g_first_nl == NPOS)) /*@ C19 "a template containing newlines is written with every newline replaced by a space: the object stays on one line" */
 __CPROVER_ensures(!log_metadata->g_format_has_newline ==> (!g_generated_with_copy && g_copies == 0)) /*@ C19 "otherwise the original message template is used" */
 ''')],
